@@ -234,6 +234,48 @@ class Mod:
         self.toplevel_assign = {}  # name -> value node (last one)
 
 
+class _Normalise(ast.NodeTransformer):
+    """spelling-level normalisation applied to every module before any analysis (positions are kept):
+       setattr(x, "name", v)  as a statement      ->  x.name = v
+       t = <call>; with t: ...  (t bound once, just before, used only there)  ->  with <call>: ..."""
+
+    def visit_Expr(self, node):
+        self.generic_visit(node)
+        c = node.value
+        if isinstance(c, ast.Call) and isinstance(c.func, ast.Name) and c.func.id == "setattr" and len(c.args) == 3 and not c.keywords and isinstance(c.args[1], ast.Constant) and isinstance(c.args[1].value, str) and c.args[1].value.isidentifier():
+            tgt = ast.Attribute(value=c.args[0], attr=c.args[1].value, ctx=ast.Store())
+            new = ast.Assign(targets=[tgt], value=c.args[2], type_comment=None)
+            ast.copy_location(tgt, c)
+            return ast.fix_missing_locations(ast.copy_location(new, node))
+        return node
+
+    def _block(self, body):
+        for i in range(1, len(body)):
+            w, prev = body[i], body[i - 1]
+            if isinstance(w, ast.With) and len(w.items) == 1 and isinstance(w.items[0].context_expr, ast.Name) and isinstance(prev, ast.Assign) and len(prev.targets) == 1 and isinstance(prev.targets[0], ast.Name) and prev.targets[0].id == w.items[0].context_expr.id and isinstance(prev.value, ast.Call):
+                nm = prev.targets[0].id
+                uses = sum(1 for st in body for x in ast.walk(st) if isinstance(x, ast.Name) and x.id == nm)
+                if uses == 2:   # the binding and the with item
+                    w.items[0].context_expr = prev.value
+                    body[i - 1] = ast.copy_location(ast.Pass(), prev)
+        return body
+
+    def generic_visit(self, node):
+        super().generic_visit(node)
+        for fld in ("body", "orelse", "finalbody"):
+            b = getattr(node, fld, None)
+            if isinstance(b, list) and b and all(isinstance(x, ast.stmt) for x in b):
+                setattr(node, fld, self._block(b))
+        return node
+
+
+def _normalise(tree):
+    try:
+        return ast.fix_missing_locations(_Normalise().visit(tree))
+    except Exception:   # never let the normaliser stand between the source and the analysis
+        return tree
+
+
 class Repo:
     def __init__(self, root=None, package="tf_pwa"):
         self.root = root or os.environ.get("VERIF_REPO", "/repo")
@@ -270,7 +312,7 @@ class Repo:
                 with open(full, encoding="utf-8") as f:
                     src = f.read()
                 try:
-                    tree = ast.parse(src, filename=rel)
+                    tree = _normalise(ast.parse(src, filename=rel))
                 except SyntaxError as e:
                     raise AnalysisError("cannot parse %s: %s" % (rel, e))
                 tree = _SequentialiseParallelAssign().visit(tree)
